@@ -1,4 +1,15 @@
-from .manifest_gen import claim, pending
+"""property id -> (category, text, note, technique, design_ref); only built checks are claimed"""
+CHECKS = {}
+PENDING = {}
+
+
+def claim(pid, category, text, note, technique, ref):
+    CHECKS[pid] = (category, text, note, technique, ref)
+
+
+def pending(pid, reason):
+    PENDING[pid] = reason
+
 
 MEAS = ("Trusted base: TLC; the Python projection (harness/measure.py, harness/drivers) that calls the public solver API, "
         "takes finite differences / locates discontinuities and encodes the measured operands as integers; "
